@@ -181,6 +181,30 @@ theorem drop_unused_inputs_sound (S : Sem Val) (prog : List PNode) (hwf : WF pro
   intro a ha
   exact updArgs_filter _ b main.args vals a (by simpa using ha)
 
+/-- **Every input that is read must be listed.**  Whatever emission is accepted for results `main'.results`
+    with input list `main'.args`: an argument reached from the results through node inputs and bodies —
+    at whatever nesting depth — that is not a formal of some body is one of the listed inputs.
+    (Side conditions executable: `argsLeaf`, `isArg`, `notFormal`; the driver evaluates them on every run.) -/
+theorem read_inputs_must_be_listed (prog : List PNode) (hleaf : argsLeaf prog = true) (e : EGraph)
+    (main' : PGraph) (hv : validG prog e main' [] = true) (a : Nat)
+    (ha : a ∈ needed prog (main'.results.map (·.node))) (hisarg : isArg prog a = true)
+    (hnf : notFormal prog a = true) : a ∈ main'.args :=
+  needed_arg_listed prog (argsLeaf_sound prog hleaf) e main' hv a ha hisarg
+    (fun pg ⟨k, pn, hk, hpg⟩ => notFormal_sound prog a hnf k pn hk pg hpg)
+
+/-- `usedArgs` is the LEAST input list: any accepted model of the same results lists every used input
+    of the caller's list — no build option may drop an input that is read, however deep. -/
+theorem usedArgs_least (prog : List PNode) (hleaf : argsLeaf prog = true) (e : EGraph) (main : PGraph)
+    (args' : List Nat) (hv : validG prog e ⟨args', main.results⟩ [] = true)
+    (hmain : ∀ a ∈ main.args, isArg prog a = true ∧ notFormal prog a = true) :
+    ∀ a ∈ usedArgs prog main, a ∈ args' := by
+  intro a ha
+  unfold usedArgs at ha
+  rw [List.mem_filter] at ha
+  obtain ⟨hm, hc⟩ := ha
+  exact read_inputs_must_be_listed prog hleaf e ⟨args', main.results⟩ hv a (by simpa using hc)
+    (hmain a hm).1 (hmain a hm).2
+
 /-- The inputs that remain are listed in the caller's order (a sublist of the caller's list). -/
 theorem usedArgs_caller_order (prog : List PNode) (main : PGraph) :
     (usedArgs prog main).Sublist main.args := by
@@ -374,6 +398,12 @@ example (vals : List Int) :
         (usedVals (needed deepU.nodes (deepU.main.results.map (·.node))).contains deepU.main.args vals)
       = some (denoteG exSem deepU.nodes (fun _ => 0) deepU.main vals) :=
   drop_unused_inputs_sound exSem deepU.nodes (wfCheck_sound _ (by decide)) _ deepU.main (by decide) _ vals
+example : argsLeaf deepU.nodes = true := by decide
+example : ∀ a ∈ deepU.main.args, isArg deepU.nodes a = true ∧ notFormal deepU.nodes a = true := by decide
+/-- the theorem instantiated: whatever accepted emission lists inputs `args'`, `u` (3) is among them -/
+example (e : EGraph) (args' : List Nat) (hv : validG deepU.nodes e ⟨args', deepU.main.results⟩ [] = true) :
+    3 ∈ args' :=
+  usedArgs_least deepU.nodes (by decide) e deepU.main args' hv (by decide) 3 (by decide)
 /-- dropping the input that is read only at depth 3: rejected, and the value is not the dataflow's -/
 example : validG deepU.nodes deepUDepth1 ⟨[0, 1, 2], [⟨11, 0⟩]⟩ [] = false := by decide
 example : evalG exSem deepU.nodes deepUDepth1 (fun _ => none) [2, 5, 1]
